@@ -6,9 +6,9 @@ import Magog.Lemmas.AlphaBetaWitness
     search never exhausts a fixed capacity.
 
 `G p := Inv p ∧ MM.OppSafe p` (`Magog/Lemmas/Total.lean`): the shared well-formedness invariant `Inv`
-(`Magog/Lemmas/Inv.lean`) and "the side NOT to move is not in check". `G` holds of the start position, of every
-loaded FEN in which the side not to move is not in check (`G_of_fen`), and is kept by every generated move that
-`makeMove` accepts (`G_child`, from C02). Model panics are explicit `Except.error` values; "never panics" is
+(`Magog/Lemmas/Inv.lean`) and "the side NOT to move is not in check". `G` holds of the start position, of EVERY
+position the FEN loader accepts (`G_of_fen`, from C02.fen_inv and C08.fen_oppSafe), and is kept by every generated
+move that `makeMove` accepts (`G_child`, from C02). Model panics are explicit `Except.error` values; "never panics" is
 `∃ r, f x = .ok r`.
 
 PART 1 (one position; all FULL, none `_partial`):
@@ -31,9 +31,12 @@ quiescence fuel `> maxQuiescenceDepth` returns normally for EVERY clock / stop /
 `blend`: no PV-table index, no stack slot, no `currmove` index, no empty line in `printInfo`, no `hang`.
 No finiteness-of-evaluation hypothesis is needed.
 
-FINDING (see `Props/C17.lean`, `Lemmas/UciFenWitness.lean`): `G` cannot be weakened to `Inv`, and the FEN loader
-does not establish `OppSafe`: `4k3/8/8/8/8/8/8/4RK2 w - - 0 1` is accepted and `perft 3` on it panics
-("Unexpected piece found"): the rook captures the king, which `MakeMove` does not book. -/
+FINDING (see `Props/C17.lean`, `Lemmas/UciFenWitness.lean`): `G` cannot be weakened to `Inv`: on the well-formed
+position White Kf1 Re1, Black Ke8, WHITE to move (Black, not to move, in check) `perft 3` panics ("Unexpected piece
+found"): the rook captures the king, which `MakeMove` does not book (`UciTotal.checkWitness_perft_panics`).
+HISTORY: the unrepaired FEN loader ACCEPTED that position (`4k3/8/8/8/8/8/8/4RK2 w - - 0 1`), i.e. it did not
+establish `OppSafe`; this was proved here, the engine was repaired (the loader now rejects a FEN with the side not
+to move in check), and `G_of_fen` no longer needs `OppSafe` as a hypothesis. -/
 
 namespace Magog.Props.C18Total
 open Magog Magog.Model Magog.MM Magog.Total
@@ -42,8 +45,13 @@ open Magog Magog.Model Magog.MM Magog.Total
 
 theorem G_start : G startPosition := Total.G_start
 
-theorem G_of_fen {s : Bytes} {p : Position} (h : parseFen s = .ok (.ok p)) (hS : MM.OppSafe p) : G p :=
-  Total.G_of_fen h hS
+/-- every position the FEN loader accepts is good (no hypothesis on the FEN any more: the loader itself rejects
+    positions with the side not to move in check) -/
+theorem G_of_fen {s : Bytes} {p : Position} (h : parseFen s = .ok (.ok p)) : G p :=
+  Total.G_of_fen h
+
+example : ∃ p, parseFen (FenSpec.strBytes "4k3/8/8/8/8/8/8/4RK2 b - - 0 1") = .ok (.ok p) ∧ G p :=
+  (FenLemmas.accepted_iff.1 (by decide +kernel)).imp fun _ hp => ⟨hp, G_of_fen hp⟩
 
 theorem G_child {p q : Position} {m : Move} (hg : G p) (hG : Generated p m) (h : makeMove p m = .ok (q, true)) :
     G q :=
